@@ -1,6 +1,7 @@
 (* stdin: one case per line; strings hex-encoded ("-" = empty, "~" = None); stdout: one result line per case.
    M fixed mb a b nbad bad*                       -> 0 | 1 | 2 (raise)
-   S fixed cap nbad bad* nev ev*                  -> per event: outs / query result, then the final tables
+   S fixed allow cap nbad bad* nev ev*            -> per event (allow = module option allow_missing_app_sequence)
+                                                     per event: outs / query result, then the final tables
    ev  : pub epr types scopes xaddrs iid | clear epr | in mid msg | loop k | found typesopt sfopt
    F fixed nbad bad* nsvc svc* typesopt sfopt     -> per service "<scope_in_list digits>:<matches_filter>", then "| <eprs kept by filter_services>" or "| E"
    msg : hello aps svc | bye epr aps (mdv|~) types scopesopt xaddrs | probe typesopt sfopt | pm aps n svc* | resolve epr | rm aps (svc|~) | other
@@ -82,6 +83,7 @@ let () =
          Buffer.add_string buf (match kept with None -> " | E" | Some l -> " |" ^ String.concat "" (List.map (fun e -> " " ^ hex e) l))
        | "S" ->
          let fixed = next () = "1" in
+         let allow = next () = "1" in
          let cap = nat_of_int (next_int ()) in
          let badl = strs () in
          let split = split_tbl badl in
@@ -102,7 +104,7 @@ let () =
                   | "in" -> let mid = z_of_int (next_int ()) in EIn (mid, msg ())
                   | "loop" -> ELoop (nat_of_int (next_int ()))
                   | t -> failwith ("bad event " ^ t)) in
-              let (n1, os) = step k fixed split cap !node ev in
+              let (n1, os) = step k fixed split allow cap !node ev in
               node := n1;
               Buffer.add_string buf (String.concat " , " (List.map out_str os)));
            Buffer.add_string buf " ; "
